@@ -911,3 +911,53 @@ func whatATableMayNotHoldIsNotDereferenced(c *core.Ctx) {
 	c.Pass("vm|table-entries", "", sprintf("%d pointers read from tables of package vm and dereferenced", n))
 	c.Stat("table_entries_dereferenced", n)
 }
+
+// ---------------------------------------------------------------------------
+// aValidatorJudgesTheStringItWasGiven (C14): the function that decides whether
+// an import path has the permitted shape decides about the string it was
+// given, which is the string the caller keeps (C14-R8).  A validator that
+// edits its argument first (trims quotes, folds case) accepts strings whose
+// edited form is fine: the path that is used afterwards is another one than
+// the path that was judged (`import "\"m"` names the file `"m.risor`).
+func aValidatorJudgesTheStringItWasGiven(c *core.Ctx) {
+	p := c.P
+	editing := func(name string) bool {
+		switch {
+		case len(name) >= 4 && name[:4] == "Trim", len(name) >= 7 && name[:7] == "Replace", len(name) >= 2 && name[:2] == "To", name == "Map", name == "Title":
+			return true
+		}
+		return false
+	}
+	n := 0
+	for _, fn := range repoFns(p, "parser") {
+		if len(fn.Name()) < 8 || fn.Name()[:8] != "validate" || len(fn.Params) != 1 || !core.IsStringType(fn.Params[0].Type()) {
+			continue
+		}
+		n++
+		prm := ssa.Value(fn.Params[0])
+		bad := ""
+		for _, b := range fn.Blocks {
+			for _, in := range b.Instrs {
+				call, ok := in.(*ssa.Call)
+				if !ok {
+					continue
+				}
+				cal := call.Call.StaticCallee()
+				if cal == nil || cal.Pkg == nil || cal.Pkg.Pkg.Path() != "strings" || !editing(cal.Name()) || !core.IsStringType(call.Type()) {
+					continue
+				}
+				for _, a := range call.Call.Args {
+					if a == prm || core.DependsOn(a, func(w ssa.Value) bool { return w == prm }) {
+						bad = "strings." + cal.Name() + " at " + p.Pos(call.Pos())
+					}
+				}
+			}
+		}
+		c.Check(bad == "", core.SSAName(fn)+"|judges-the-string-it-was-given", p.Pos(fn.Pos()),
+			core.SSAName(fn)+ife(bad == "", " tests the string it was given, unedited", " edits the string it was given ("+bad+") before it tests it: what it accepts is the edited string, and what the caller keeps and uses is the one it was given"))
+	}
+	if n == 0 {
+		core.Undecidedf("no validator of a string in package parser")
+	}
+	c.Stat("string_validators", n)
+}
